@@ -587,3 +587,8 @@ MUTANTS['C05']['benign-replace-symlink-target'] = ([(FU, """        try:
                           os.path.realpath(self.dest_path) if self.overwrite else self.dest_path,
                           overwrite=self.overwrite)""")], 'benign')
 MUTANTS['C04']['benign-replace-symlink-target'] = MUTANTS['C05']['benign-replace-symlink-target']
+
+MUTANTS['C18']['seek-end-rewinds-before-len'] = ([(IO, """            # NB: take the length first, it puts the position back
+            dest_position = self.len - pos
+            self.buffer.seek(0)""", """            self.buffer.seek(0)
+            dest_position = self.len - pos""")], 'detect')
